@@ -112,7 +112,7 @@ func TestVerifC12_fp448(t *testing.T) {
 		{Name: "Mul", Do: func(z, x, y bf.Elem) { fp.Mul(z.(*fp.Elt), x.(*fp.Elt), y.(*fp.Elt)) }, Ref: bf.RefMul},
 	}
 	for _, op := range bin {
-		f.CheckBin(r, op, all, all, op.Name == "Mul")
+		f.CheckBin(r, op, all, all, op.Name == "Mul" && bf.HashPairs(all.Len()*all.Len()))
 		f.CheckBin(r, op, wide, small, false)
 		f.CheckBin(r, op, small, wide, false)
 	}
